@@ -11,10 +11,16 @@
     * `RhoScaleInvariant lib`  — density depends on composition only (C10)
   and the in-domain guards (requested rate > 0, the rated phase present with positive density).
 
+  Both are HYPOTHESES (sampled on every generated case by the harness), not lemmas.
+
   NOT PROVED (observed by the harness on the real `get_oil`, re-flashed at 288.15 K, 101325 Pa):
-  that `fsolve` returns a root of `gas_fraction`.  The GOR statement is therefore conditional:
-  `gor_target_if_root`.  Also only observed: that the returned root lies in [0, 1] (used by
-  `get_oil_nonneg`).
+  that `fsolve` returns a root of `gas_fraction`.  The GOR statement is therefore conditional —
+  `gor_target_if_root` is the PARTIAL form of the GOR clause (missing: `fsolve` returns a root; it
+  demonstrably does not always, see known finding gor-fsolve-start-beyond-dew-point).  Also only
+  observed: that the returned root lies in [0, 1] (used by `get_oil_nonneg`).
+
+  Theorems marked (corollary) / (helper) / (definitional) are instances or unfoldings; the pinned
+  inventory harness/theorems/C12.txt lists the property theorems proper.
 -/
 import TamocV.Real
 import TamocV.Lemmas.Basic
@@ -58,6 +64,7 @@ private theorem exInv : RhoScaleInvariant exLib := fun _ _ _ => ⟨rfl, rfl⟩
 
 -- ===================================================================== homogeneity of the targets
 
+/-- (helper) -/
 theorem phaseRow_scale (lib : Lib ℝ) (hF : FlashHomogeneous lib) (fp : Nat) (m : List ℝ) (c : ℝ)
     (hc : 0 < c) : phaseRow lib fp (m.map (· * c)) = (phaseRow lib fp m).map (· * c) := by
   unfold phaseRow
@@ -65,6 +72,7 @@ theorem phaseRow_scale (lib : Lib ℝ) (hF : FlashHomogeneous lib) (fp : Nat) (m
   · exact (hF c m hc).1
   · exact (hF c m hc).2
 
+/-- (helper) -/
 theorem phaseRho_scale (lib : Lib ℝ) (hR : RhoScaleInvariant lib) (fp : Nat) (m : List ℝ) (c : ℝ)
     (hc : 0 < c) : phaseRho lib fp (m.map (· * c)) = phaseRho lib fp m := by
   unfold phaseRho
@@ -85,7 +93,7 @@ theorem gorOf_scale (lib : Lib ℝ) (hF : FlashHomogeneous lib) (hR : RhoScaleIn
 
 -- ===================================================================== non-negativity
 
-/-- the scale factor is non-negative when the requested rate is, the rated phase carries
+/-- (helper) the scale factor is non-negative when the requested rate is, the rated phase carries
     non-negative mass and its density is positive -/
 theorem kFac_nonneg (lib : Lib ℝ) (mf : List ℝ) (q : ℝ) (fp : Nat) (hq : 0 ≤ q)
     (hrow : 0 ≤ (phaseRow lib fp mf).sum) (hrho : 0 < phaseRho lib fp (phaseRow lib fp mf)) :
@@ -124,7 +132,7 @@ theorem liveMassFrac_nonneg (masses : List ℝ) (nca : Nat) (gor beta : ℝ) (hm
     · exact mem_map_mul_nonneg _ _ (by linarith) hdead x h
   · exact hdead
 
-/-- NON-NEGATIVE, whole builder: every returned mass flux is ≥ 0. -/
+/-- (corollary of `flux_nonneg` and `liveMassFrac_nonneg`) NON-NEGATIVE, whole builder: every returned mass flux is ≥ 0. -/
 theorem get_oil_nonneg (lib : Lib ℝ) (masses : List ℝ) (nca : Nat) (gor beta q : ℝ) (fp : Nat)
     (hm : AllNonneg masses) (hS : 0 < masses.sum) (hb0 : 0 ≤ beta) (hb1 : beta ≤ 1) (hq : 0 ≤ q)
     (hrow : 0 ≤ (phaseRow lib fp (liveMassFrac masses nca gor beta)).sum)
@@ -245,7 +253,7 @@ theorem rate_target (lib : Lib ℝ) (hF : FlashHomogeneous lib) (hR : RhoScaleIn
   norm_num
   field_simp
 
-/-- RATE TARGET for the whole builder. -/
+/-- (corollary: `rate_target` at the composition `get_oil` hands over) RATE TARGET for the whole builder. -/
 theorem get_oil_rate_target (lib : Lib ℝ) (hF : FlashHomogeneous lib) (hR : RhoScaleInvariant lib)
     (masses : List ℝ) (nca : Nat) (gor beta q : ℝ) (fp : Nat) (hq : 0 < q)
     (hrow : 0 < (phaseRow lib fp (liveMassFrac masses nca gor beta)).sum)
@@ -262,13 +270,20 @@ example : stdRate exLib 1 (getOil exLib [3, 1] 2 100 (1/10) 5000 1) = 5000 := by
 
 -- ===================================================================== GOR target (conditional)
 
-/-- GOR TARGET, conditional on the root finder: IF the value `beta` returned by `fsolve` is a root
+/-- PARTIAL (GOR clause of C12).  GOR TARGET, conditional on the root finder: IF the value `beta` returned by `fsolve` is a root
     of the residual (`gas_fraction beta = 0`), THEN the returned mass fluxes, brought to equilibrium
-    at standard conditions, have exactly the requested gas-to-oil ratio. -/
+    at standard conditions, have exactly the requested gas-to-oil ratio.  MISSING for the full clause:
+    that `fsolve` returns such a root (observed only).  `_hGasPresent` / `_hLiqPresent` are the in-domain
+    guards of the ratio (both phases present with positive density; otherwise the code divides by 0
+    or by the density of nothing and Lean's `x/0 = 0` would make the statement meaningless). -/
 theorem gor_target_if_root (lib : Lib ℝ) (hF : FlashHomogeneous lib) (hR : RhoScaleInvariant lib)
     (masses : List ℝ) (nca : Nat) (gor beta q : ℝ) (fp : Nat) (hg : 0 < gor) (hq : 0 < q)
     (hrow : 0 < (phaseRow lib fp (liveMassFrac masses nca gor beta)).sum)
     (hrho : 0 < phaseRho lib fp (phaseRow lib fp (liveMassFrac masses nca gor beta)))
+    (_hGasPresent : 0 < (lib.flashGas (liveMassFrac masses nca gor beta)).sum ∧
+        0 < lib.rhoGas (lib.flashGas (liveMassFrac masses nca gor beta)))
+    (_hLiqPresent : 0 < (lib.flashLiq (liveMassFrac masses nca gor beta)).sum ∧
+        0 < lib.rhoLiq (lib.flashLiq (liveMassFrac masses nca gor beta)))
     (hroot : gasFraction lib beta gor (mfGasFull (withCa (loadMassFrac masses) nca).length)
               (mfOilFull (withCa (loadMassFrac masses) nca)) = 0) :
     gorOf lib (getOil lib masses nca gor beta q fp) = gor := by
@@ -281,8 +296,9 @@ theorem gor_target_if_root (lib : Lib ℝ) (hF : FlashHomogeneous lib) (hR : Rho
   simp only [liveMassFrac, Num.real_zero, if_pos hg, mixGasForGor]
   linarith
 
-/-- GOR 0: no gas is added; if the dead oil itself is all liquid at standard conditions the
-    returned fluxes have gas-to-oil ratio 0. -/
+/-- (near-definitional: the hypothesis `hliq` is the conclusion before scaling; content = scale
+    invariance of the ratio)  GOR 0: no gas is added; if the dead oil itself is all liquid at standard
+    conditions the returned fluxes have gas-to-oil ratio 0. -/
 theorem gor_zero (lib : Lib ℝ) (hF : FlashHomogeneous lib) (hR : RhoScaleInvariant lib)
     (masses : List ℝ) (nca : Nat) (gor beta q : ℝ) (fp : Nat) (hq : 0 < q)
     (hrow : 0 < (phaseRow lib fp (liveMassFrac masses nca gor beta)).sum)
@@ -303,17 +319,64 @@ example : gorOf exLib (getOil exLib [3, 1] 0 100 (1/10) 5000 1)
     simp [kFac, phaseRow, phaseRho, exLib, gasMf, bbl, Num.real_ofSci]; norm_num
   rw [getOil, setMassFluxes, gorOf_scale exLib exHom exInv _ _ hk]
 
-/-- PARTIAL form of the GOR part of C12 (alias of `gor_target_if_root`).  What is missing for the
-    full statement "the returned fluxes have the requested GOR": a proof that `scipy.optimize.fsolve`
-    returns a root of `gas_fraction` (hypothesis `hroot`) — a library contract that is only
-    observed on the real code by the harness (and that does fail on some inputs, see harness/c12.py). -/
-theorem gor_target_partial (lib : Lib ℝ) (hF : FlashHomogeneous lib) (hR : RhoScaleInvariant lib)
-    (masses : List ℝ) (nca : Nat) (gor beta q : ℝ) (fp : Nat) (hg : 0 < gor) (hq : 0 < q)
-    (hrow : 0 < (phaseRow lib fp (liveMassFrac masses nca gor beta)).sum)
-    (hrho : 0 < phaseRho lib fp (phaseRow lib fp (liveMassFrac masses nca gor beta)))
-    (hroot : gasFraction lib beta gor (mfGasFull (withCa (loadMassFrac masses) nca).length)
-              (mfOilFull (withCa (loadMassFrac masses) nca)) = 0) :
-    gorOf lib (getOil lib masses nca gor beta q fp) = gor :=
-  gor_target_if_root lib hF hR masses nca gor beta q fp hg hq hrow hrho hroot
+
+-- ===================================================================== the rated phase must be present
+
+/-- ABSENT RATED PHASE (the guard `hrow` of `rate_target` is necessary): when the rated phase does
+    not form at standard conditions (e.g. gas-rate convention for a gas-free dead oil, GOR 0), NO
+    positive scale factor meets a positive rate — the volume flow of that phase is 0 for every
+    scaling.  The request is infeasible; the real code answers it with NaN fluxes (0/NaN), known
+    finding `gas-rate-absent-gas-nan`. -/
+theorem rate_target_infeasible_absent_phase (lib : Lib ℝ) (hF : FlashHomogeneous lib) (mf : List ℝ)
+    (fp : Nat) (habs : (phaseRow lib fp mf).sum = 0) (k : ℝ) (hk : 0 < k) :
+    stdRate lib fp (mf.map (· * k)) = 0 := by
+  simp only [stdRate, Num.real_sum]
+  rw [phaseRow_scale lib hF fp mf k hk, sum_map_mul_right, habs]
+  simp
+
+example : stdRate exLib 0 (([0, 0] : List ℝ).map (· * 7)) = 0 :=
+  rate_target_infeasible_absent_phase exLib exHom [0, 0] 0 (by simp [phaseRow, exLib]) 7 (by norm_num)
+
+-- ===================================================================== further non-vacuity examples
+
+example : AllNonneg (setMassFluxes exLib [1/4, 3/4] 5000 1) :=
+  flux_nonneg exLib [1/4, 3/4] 5000 1
+    (by intro x hx; simp at hx; rcases hx with h | h <;> rw [h] <;> norm_num) (by norm_num)
+    (by simp [phaseRow, exLib]; norm_num) (by simp [phaseRho, exLib])
+
+example : getOil exLib [3, 1] 2 100 (1/10) (2 * 5000) 1 = (getOil exLib [3, 1] 2 100 (1/10) 5000 1).map (2 * ·) :=
+  flux_linear_in_rate exLib [3, 1] 2 100 (1/10) 5000 2 1
+
+example : ((getOil exLib [3, 1] 2 100 (1/10) 5000 1).drop 5).take 2
+    = [((1 - 1/10) / (3 + 1 + 0) * kFac exLib (liveMassFrac [3, 1] 2 100 (1/10)) 5000 1) * 3,
+       ((1 - 1/10) / (3 + 1 + 0) * kFac exLib (liveMassFrac [3, 1] 2 100 (1/10)) 5000 1) * 1] := by
+  have h := dead_oil_proportions exLib [3, 1] 2 100 (1/10) 5000 1
+  simpa using h
+
+-- the conditional GOR theorem is not vacuous: for `exLib` (a fixed split) every β is a root at the
+-- library's own GOR, and the returned fluxes have it
+example : gorOf exLib (getOil exLib [3, 1] 0 (gorOf exLib (liveMassFrac [3, 1] 0 1 (1/10))) (1/10) 5000 1)
+    = gorOf exLib (liveMassFrac [3, 1] 0 1 (1/10)) := by
+  have hpos : (0 : ℝ) < gorOf exLib (liveMassFrac [3, 1] 0 1 (1/10)) := by
+    rw [live_composition _ _ _ _ (by norm_num)]
+    simp [gorOf, exLib, gasMf, ft3, bbl, Num.real_ofSci]; norm_num
+  have hsame : ∀ g : ℝ, 0 < g → liveMassFrac [3, 1] 0 g (1/10) = liveMassFrac [3, 1] 0 1 (1/10) := by
+    intro g hg
+    rw [live_composition _ _ _ _ hg, live_composition _ _ _ _ (by norm_num)]
+  apply gor_target_if_root exLib exHom exInv
+  · exact hpos
+  · norm_num
+  · rw [hsame _ hpos, live_composition _ _ _ _ (by norm_num)]
+    simp [phaseRow, exLib, gasMf, Num.real_ofSci]; norm_num
+  · simp [phaseRho, exLib]
+  · rw [hsame _ hpos, live_composition _ _ _ _ (by norm_num)]
+    simp [exLib, gasMf, Num.real_ofSci]; norm_num
+  · rw [hsame _ hpos, live_composition _ _ _ _ (by norm_num)]
+    simp [exLib, gasMf, Num.real_ofSci]; norm_num
+  · have e : mix (1/10 : ℝ) (mfGasFull (withCa (loadMassFrac ([3, 1] : List ℝ)) 0).length)
+        (mfOilFull (withCa (loadMassFrac ([3, 1] : List ℝ)) 0)) = liveMassFrac ([3, 1] : List ℝ) 0 1 (1/10) := by
+      simp [liveMassFrac, mixGasForGor, Num.real_zero]
+    simp only [gasFraction, e]
+    ring
 
 end TamocV.Props.C12
